@@ -89,7 +89,14 @@ INFO = {
         'effective damage or >= 2 checked steps; distinct = distinct behaviour digest',
         700,
     ),
-    'C13': _p('exploration', 'repack-free histories over 1-3 handles, pack bytes compared before/after every step: ' + HIST_RULE, 1000),
+    'C13': _p(
+        'exploration',
+        'repack-free histories over 1-3 handles, pack bytes compared before/after every step (half of the runs); a quarter: '
+        'kill inside a repack-free victim, new process on the crash image, 2-4 more operations; a quarter: one seam call of '
+        'the victim fails, the same handle carries on with 2-4 more operations (append-only clauses always, fill-order '
+        'clauses unless the failing call carried pack data); ' + HIST_RULE,
+        1000,
+    ),
     'C14': _p('exploration', 'two containers, import matrix (iterable kinds, callback, memory budget, hash types): ' + HIST_RULE, 900),
     'C15': _p(
         'exploration',
